@@ -470,6 +470,51 @@ def r_dict_pop(I, st, recv, args, kwargs, fr, k):
 REF_METHODS["pop"] = r_dict_pop
 
 
+def r_dict_popitem(I, st, recv, args, kwargs, fr, k):
+    """OrderedDict.popitem(last=False): removes and returns the OLDEST entry.  Order is modelled only through the
+    most recently inserted key: with two or more entries the oldest one is not the newest one."""
+    last = kwargs.get("last", args[0] if args else None)
+    if last is None or B.concrete_key(I, st, last) is not False:
+        raise Unsupported("popitem() other than popitem(last=False)")
+    t = recv.t
+    def ok(s2):
+        loc = get_loc(t)
+        n = s2.read(LEN, loc)
+        def nonempty(s3):
+            has = s3.read(HAS, loc)
+            kk = z3.Const(I.w.fresh("oldest"), V)
+            s3.fact(z3.Select(has, kk), z3.Implies(n > 1, kk != s3.read(B.NEWEST, loc)))
+            val = z3.Select(s3.read(MAP, loc), kk)
+            s3.fact(z3.Implies(is_ref(val), get_loc(val) < s3.frontier), z3.Implies(is_ref(kk), get_loc(kk) < s3.frontier))
+            s3.write(HAS, loc, z3.Store(has, kk, z3.BoolVal(False)))
+            s3.write(LEN, loc, n - 1)
+            B.note(I, "OrderedDict.popitem(last=False): some present key that is not the most recently inserted one (when there are >= 2 entries); full LRU order is not modelled")
+            return k(s3, Tup([Sym(kk), Sym(val)]))
+        return I.branch(s2, n >= 1, nonempty, lambda s3: I.raise_(s3, "builtins.KeyError", "popitem(): dictionary is empty"))
+    return I.branch(st, I.w.isinstance_term(t, ["collections.OrderedDict"]), ok, lambda s2: B.unsupported_path(I, s2, ".popitem(last=False) on a non-OrderedDict"))
+
+
+REF_METHODS["popitem"] = r_dict_popitem
+
+
+def r_dict_values(I, st, recv, args, kwargs, fr, k):
+    return I.branch(st, I.w.isinstance_term(recv.t, DICTLIKE), lambda s2: k(s2, B.ValuesOf(recv)),
+                    lambda s2: B.unsupported_path(I, s2, ".values() on a non-mapping"))
+
+
+def r_dict_clear(I, st, recv, args, kwargs, fr, k):
+    def ok(s2):
+        loc = get_loc(recv.t)
+        s2.write(HAS, loc, z3.K(V, z3.BoolVal(False)))
+        s2.write(LEN, loc, z3.IntVal(0))
+        return k(s2, Sym(NONE))
+    return I.branch(st, I.w.isinstance_term(recv.t, ["builtins.dict"]), ok, lambda s2: B.unsupported_path(I, s2, ".clear() on a non-dict"))
+
+
+REF_METHODS["values"] = r_dict_values
+REF_METHODS["clear"] = r_dict_clear
+
+
 def m_translate(I, st, recv, args, kwargs, fr, k):
     """str.translate(table) for a literal {code point: replacement str} table: simultaneous replacement; encoded as a
     chain of replace_all, which is the same thing when no replacement text contains a translated character"""
